@@ -277,7 +277,7 @@ def task_seed(seed, prop, clause_name, shard):
 
 
 SHRINK_BUDGET_S = {'quick': 25.0, 'thorough': 120.0}
-SEARCH_BUDGET_S = float(os.environ.get('VERIF_SEARCH_BUDGET_S', 30 * 60.0))      # per shard of a Hypothesis clause, thorough tier only
+SEARCH_BUDGET_S = float(os.environ.get('VERIF_SEARCH_BUDGET_S', 15 * 60.0))      # per shard of a Hypothesis clause, thorough tier only
 
 
 def _size(case):
